@@ -599,7 +599,12 @@ def check_inclusive_bounds(prog, rep):
     n = 0
     for rel in (NPC, 'tenpy/linalg/charges.py'):
         m = prog.module(rel)
-        for q, f in m.functions.items():
+        for q, f0 in m.functions.items():
+            if not any(isinstance(st, ast.If) and any(isinstance(b, ast.Raise) for b in st.body)
+                       and any(isinstance(c, ast.Compare) for c in ast.walk(st.test))
+                       for st in ast.walk(f0)):
+                continue
+            f = inline_temps(f0)      # `n = self.ind_len` ... `if i >= n` is a length test too
             for st in ast.walk(f):
                 if not (isinstance(st, ast.If) and any(isinstance(b, ast.Raise) for b in st.body)):
                     continue
@@ -609,8 +614,8 @@ def check_inclusive_bounds(prog, rep):
                         gt = isinstance(c.ops[0], (ast.Gt, ast.GtE))
                         big = c.comparators[0] if gt else c.left
                         small = c.left if gt else c.comparators[0]
-                        if LEN_LIKE.search(unparse(big)) and isinstance(small, (ast.Name,
-                                                                              ast.Subscript)):
+                        if LEN_LIKE.search(unparse(big)) and isinstance(small, (
+                                ast.Name, ast.Subscript)) and not LEN_LIKE.search(unparse(small)):
                             n += 1
                             strict = isinstance(c.ops[0], (ast.Gt, ast.Lt))
                             rep.instance('BOUND-inclusive', {'function': q, 'test': unparse(c),
